@@ -467,7 +467,14 @@ class _Side:
         elif o == 'selAdd':
             self.ref(op['o']).param[op['p']].objects[f'k{op["n"]}'] = op['n']
         elif o == 'watch':
-            self.ref(op['o']).param.watch(getattr(self.ref(op['target']), op['cb']), list(op['ps']))
+            # one callable object per (target, callback) unless the operation asks for a `fresh` bound method: two
+            # separate watch() calls with the SAME callable are two watchers (the model names a callback by
+            # (target, method) either way; __setstate__ must rebuild one Watcher per Watcher, not per callable)
+            tgt = self.ref(op['target'])
+            if not hasattr(self, '_cbs'):
+                self._cbs = {}
+            fn = getattr(tgt, op['cb']) if op.get('fresh') else self._cbs.setdefault((id(tgt), op['cb']), getattr(tgt, op['cb']))
+            self.ref(op['o']).param.watch(fn, list(op['ps']))
         elif o == 'update':
             self.ref(op['o']).param.update(**{k: self.arg(v) for k, v in op['kvs']})
         elif o == 'within':
@@ -697,6 +704,12 @@ def directed():
         yield case([new(SUB, x=1), new(PLAIN, a=R(H(0))), watch(H(1), 'n', H(1)), watch(H(0), 'x', H(1)), watch(H(0), 'y', H(0))], H(1), mech,
                    [('copy', set_(CP(), 'n', 4)), ('copy', set_(CP('a'), 'x', 2)), ('orig', set_(H(0), 'x', 3)), ('copy', set_(CP('a'), 'y', 2)),
                     ('orig', set_(H(1), 'n', 6))])
+        # the same callable object registered by two separate watch() calls on two parameters of one object (and a third
+        # time through a fresh bound method): three watchers, each rebuilt on its own
+        yield case([new(SUB, x=1), new(PLAIN, a=R(H(0))), watch(H(0), 'x', H(1)), watch(H(0), 'y', H(1)), dict(watch(H(0), 'y', H(1)), fresh=True),
+                    watch(H(1), 'n', H(1)), watch(H(1), 'l', H(1))], H(1), mech,
+                   [('copy', set_(CP('a'), 'y', 5)), ('copy', set_(CP('a'), 'x', 2)), ('copy', update(CP('a'), x=3, y=6)), ('copy', set_(CP(), 'n', 4)),
+                    ('copy', set_(CP(), 'l', [2])), ('orig', set_(H(0), 'y', 7)), ('orig', update(H(0), x=8, y=9))])
         # a Sub on its own
         yield case([new(SUB, x=1), pedit(H(0), 'x', bounds=[0, 9]), setattr_(H(0), 'tag', 3)], H(0), mech,
                    [('copy', set_(CP(), 'x', 2)), ('orig', set_(H(0), 'x', 3)), ('copy', setattr_(CP(), 'tag', [1])), ('copy', mutattr(CP(), 'tag', 2))])
